@@ -1,6 +1,7 @@
 import ExponaxModel.Properties.C13_wiring
 import ExponaxModel.Proofs.InterfaceAssembly2
 import ExponaxModel.Proofs.InterfaceCounterexample
+import ExponaxModel.Proofs.SmallGaps2Specific
 /-
 C13 (continued) — the ASSEMBLED statement: general, normalized and difficulty interfaces give the same step.  Separate file
 because the assembly library builds on `Properties/C13.lean` / `C13_wiring.lean` (no import cycle); audited with them.
@@ -157,5 +158,51 @@ theorem C13_scaling_needs_real_extent :
           #[#[0, 1]])
         0 0 :=
   @Exponax.Interface.gradientNorm_scaling_false_of_complex_extent
+
+
+/-! ### step-level "specific = generic": Burgers, KdV (default mixing flags), both KS forms and Fisher–KPP take the same step as
+their generic equivalents on the regenerated operators and wiring (Fisher–KPP: the generic zeroth coefficient is r/D; with a₀ = r
+the operators differ in 2-D) -/
+
+open Exponax.Interface in
+theorem C13_burgers_step_is_general_convection_step :
+    ∀ (a : Gen.StepperWiring.BurgersArgs ℂ),
+      Burgers_step a = GeneralConvectionStepper_step (Burgers_to_general a) :=
+  @Exponax.Interface.Burgers_step_eq_general
+
+open Exponax.Interface in
+theorem C13_kdv_step_is_general_convection_step :
+    ∀ (a : Gen.StepperWiring.KortewegDeVriesArgs ℂ),
+      a.advect_over_diffuse = false →
+        a.diffuse_over_diffuse = false →
+          KortewegDeVries_step a = GeneralConvectionStepper_step (KortewegDeVries_to_general a) :=
+  @Exponax.Interface.KortewegDeVries_step_eq_general
+
+open Exponax.Interface in
+theorem C13_ks_conservative_step_is_general_convection_step :
+    ∀ (a : Gen.StepperWiring.KuramotoSivashinskyConservativeArgs ℂ),
+      KuramotoSivashinskyConservative_step a = GeneralConvectionStepper_step (KuramotoSivashinskyConservative_to_general a) :=
+  @Exponax.Interface.KuramotoSivashinskyConservative_step_eq_general
+
+open Exponax.Interface in
+theorem C13_ks_step_is_general_gradient_norm_step :
+    ∀ (a : Gen.StepperWiring.KuramotoSivashinskyArgs ℂ),
+      KuramotoSivashinsky_step a = GeneralGradientNormStepper_step (KuramotoSivashinsky_to_general a) :=
+  @Exponax.Interface.KuramotoSivashinsky_step_eq_general
+
+open Exponax.Interface in
+theorem C13_fisher_kpp_step_is_general_polynomial_step :
+    ∀ (a : Gen.StepperWiring.FisherKPPArgs ℂ),
+      a.num_spatial_dims ≠ 0 → FisherKPP_step a = GeneralPolynomialStepper_step (FisherKPP_to_general a) :=
+  @Exponax.Interface.FisherKPP_step_eq_general
+
+open Exponax.Interface in
+theorem C13_fisher_kpp_zeroth_coefficient_is_r_over_D :
+    ∀ (N : ℕ) (L ν r : ℂ),
+      r ≠ 0 →
+        Gen.Steppers.FisherKPP_linear_operator (kappa (baseCfg 2 N L) 0) ν r ≠
+          Gen.Steppers.GeneralPolynomialStepper_linear_operator (kappa (baseCfg 2 N L) 0) [r, 0, ν] :=
+  @Exponax.Interface.FisherKPP_documented_a0_false_2d
+
 
 end Exponax
